@@ -35,8 +35,8 @@ def gen_step(rng, i, ops=OPS, big=False, maxdata=None, fails=False):
         return {"op": op, "path": "/st%d" % i, "seed": sd, "split": rng.choice(["whole", "random", "bytes1"])}
     if op == "pull":
         size = rng.choice([0, 1, 7, 100, 4000, 5000, 70000] + ([300000] if big else []))
-        return {"op": op, "path": "/pull%d" % i, "size": size, "seed": sd, "rec": rng.choice(["64k", "one", "random", "alt"]),
-                "split": rng.choice(["whole", "random", "random", "bytes1" if size <= 300 else "random"]),
+        return {"op": op, "path": "/pull%d" % i, "size": size, "seed": sd, "rec": rng.choice(["64k", "one", "random", "alt", "zeros"]),
+                "split": rng.choice(["whole", "random", "random", "blocks", "bytes1" if size <= 300 else "random"]),
                 "dest": rng.choice(["bytesio", "bytesio", "path"]), "cb": rng.choice([None, None, "ok", "raise"])}
     if op == "push":
         size = rng.choice([0, 1, 100, 2047, 2048, 2049, 4087, 4088, 4089, 10000, 70000] + ([300000] if big else []))
@@ -218,7 +218,8 @@ class Runner(object):
         plan.files[path] = content
         plan.stats[path] = (0o100644, len(content), 1500000000)
         rec = step.get("rec", "64k")
-        plan.recv_record_sizes[path] = {"64k": [65536], "one": [1] if len(content) <= 600 else [997], "random": [rng.randint(1, 65536) for _ in range(7)], "alt": [1, 65536]}[rec]
+        plan.recv_record_sizes[path] = {"64k": [65536], "one": [1] if len(content) <= 600 else [997], "random": [rng.randint(1, 65536) for _ in range(7)], "alt": [1, 65536],
+                                        "zeros": [0, rng.randint(1, 3000), 0, 65536]}[rec]
         if step.get("split"):
             plan.split_mode = step["split"]
         cb_calls = []
